@@ -111,4 +111,26 @@ def Piler.piles (p : Piler) (f : Option (Nat → Bool)) : List Pile :=
           | none => a.imgs
           | some f => a.imgs.filter fun i => f (i / 2) }
 
+/-! ### filters that inspect the piles of a pair's images
+
+`Piles` locates every image in its pile (`im.Loc = pa.pile`, first pass of the first call)
+before the filter is asked about any pair, so a filter that reads `p.A.Loc` / `p.B.Loc`
+(`Len()`, `Start()`, `End()`, identity) reads the FINAL piles — on the first call and on every
+later one. -/
+
+/-- `Feature.Loc` of image `i` once piled: the pile of `Piles(nil)` that lists it -/
+def locateIn (ps : List Pile) (i : Nat) : Option Pile := ps.find? fun q => q.imgs.contains i
+
+def Piler.locate (p : Piler) (i : Nat) : Option Pile := locateIn (p.piles none) i
+
+/-- a pair filter that may look at the pair (its id) and at the piles of its images A and B -/
+abbrev LocFilter := Nat → Option Pile → Option Pile → Bool
+
+/-- the filter on pair ids that `g` amounts to when the images sit in the piles `ps` -/
+def LocFilter.on (g : LocFilter) (ps : List Pile) : Nat → Bool :=
+  fun id => g id (locateIn ps (2 * id)) (locateIn ps (2 * id + 1))
+
+/-- `Piler.Piles(f)` for a pile-inspecting `f`: evaluated on the final piles -/
+def Piler.pilesLoc (p : Piler) (g : LocFilter) : List Pile := p.piles (some (g.on (p.piles none)))
+
 end Biogo.Piler
